@@ -554,6 +554,12 @@ func (pf *pfunc) numberAt(v ssa.Value, at ppos, subst map[ssa.Value]*vn) *vn {
 		return pf.mk("extract", x.Type(), fmt.Sprint(x.Index), token.ILLEGAL, g(x.Tuple))
 	case *ssa.UnOp:
 		if x.Op == token.MUL {
+			// a local captured by a function literal and assigned once: the value it was given
+			if al, ok := x.X.(*ssa.Alloc); ok && subst == nil {
+				if v, ok := cellValue(al); ok {
+					return g(v)
+				}
+			}
 			if subst != nil {
 				// field of a by-value parameter that the callee spilled into a local
 				if src, path, ok := spillSource(x.X); ok {
